@@ -26,15 +26,18 @@ def call(nb, lo, up, pr, scale: float, form: str, rtol: float = 0.0) -> dict:
     """one SearchSpace(...) call; values are integer units of `scale`"""
     from black_it import search_space as ss
 
-    f = lambda u: float(u) * scale  # noqa: E731
+    # on scale 1 with form "int*" the raw Python integers are passed (users write bounds like [0, 10] with precision 1)
+    as_int = form.startswith("int")
+    form = form[3:] if as_int else form
+    f = (lambda u: int(u)) if as_int and scale == 1.0 else (lambda u: float(u) * scale)  # noqa: E731
     back = {}
     for u in set(lo) | set(up) | set(pr):
         back[f(u)] = u
     flo, fup, fpr = [f(x) for x in lo], [f(x) for x in up], [f(x) for x in pr]
     bounds = [flo, fup][:nb] if nb <= 2 else [flo, fup, list(flo)]
     if form == "array" and nb == 2 and len(flo) == len(fup):
-        bounds = np.array(bounds, dtype=float).reshape(2, len(flo))
-        prec = np.array(fpr, dtype=float)
+        bounds = np.array(bounds, dtype=int if as_int and scale == 1.0 else float).reshape(2, len(flo))
+        prec = np.array(fpr, dtype=int if as_int and scale == 1.0 else float)
     else:
         prec = fpr
     ev = {"e": "case", "nb": nb, "lo": list(lo), "up": list(up), "pr": list(pr), "err": "none", "a": 0, "b": 0, "c": 0, "d": 0,
@@ -111,7 +114,7 @@ def run(tier: str) -> int:
     vals = [-1, 0, 1, 2] if tier == "quick" else [-2, -1, 0, 1, 2, 5]
     scales = [1.0, 2.0**-10, 2.0**13]
     for n, (nb, lo, up, pr) in enumerate(lattice_inputs(vals, 2)):
-        events.append(call(nb, lo, up, pr, scales[n % 3], "array" if n % 2 else "list"))
+        events.append(call(nb, lo, up, pr, scales[n % 3], ("int" if n % 5 == 0 else "") + ("array" if n % 2 else "list")))
     n_lat = len(events)
     # (b) three parameters: seeded sample of the lattice
     v6 = [-2, -1, 0, 1, 2, 5]
